@@ -543,6 +543,33 @@ theorem not_pending_of_any {s : State} {k : EnvId} (h : ¬ (s.creating.any (fun 
   simp only [List.any_eq_true, decide_eq_true_eq]
   exact ⟨p, hp, hk⟩
 
+theorem destroyStop_creating (s : State) (k : EnvId) (E : Env) (allow : Bool) (fails : List (TaskId × Bool)) :
+    (destroyStop s k E allow fails).1.creating = s.creating := by
+  unfold destroyStop; split
+  · split <;> rfl
+  · rfl
+
+theorem inv_destroyStop (s : State) (k : EnvId) (E : Env) (allow : Bool) (fails : List (TaskId × Bool)) (h : Inv s) :
+    Inv (destroyStop s k E allow fails).1 := by
+  unfold destroyStop; split
+  · split
+    · exact inv_setEnv_state _ _ _ (inv_applyTrans s E _ _ h)
+    · exact inv_applyTrans s E _ _ h
+  · exact h
+
+theorem inv_destroyRest (s1 : State) (st : EState) (stopOk : Bool) (k : EnvId) (E : Env) (keep : Bool) (o : DOracle)
+    (h : Inv s1) (hp : ∀ p ∈ s1.creating, p.id ≠ k) : Inv (destroyRest s1 st stopOk k E keep o).1 := by
+  unfold destroyRest
+  split
+  · exact inv_teardownAndCleanup _ _ _ _ _ _ h hp
+  split
+  · exact inv_teardownAndCleanup _ _ _ _ _ _ h hp
+  split
+  · split
+    · exact inv_teardownAndCleanup _ _ _ _ _ _ (inv_setEnv_state _ _ _ (inv_applyTrans _ _ _ _ h)) hp
+    · exact inv_teardownAndCleanup _ _ _ _ _ _ (inv_applyTrans _ _ _ _ h) hp
+  · exact inv_teardownAndCleanup _ _ _ _ _ _ h hp
+
 theorem inv_destroy (s : State) (k : EnvId) (force allow keep : Bool) (o : DOracle) (h : Inv s) :
     Inv (destroy s k force allow keep o).1 := by
   unfold destroy
@@ -557,38 +584,7 @@ theorem inv_destroy (s : State) (k : EnvId) (force allow keep : Bool) (o : DOrac
   · exact h
   split
   · exact inv_teardownAndCleanup _ _ _ _ _ _ h hp
-  simp only []
-  -- the STOP that may come first
-  have hA : ∀ (a : State × EState × Bool), a = (if allow && decide (E.state = .RUNNING) then
-        let r := applyTrans s E .STOP o.stopFails
-        if r.2 then (setEnv r.1 k (fun X => { X with state := .CONFIGURED }), EState.CONFIGURED, true)
-        else (r.1, E.state, false)
-      else (s, E.state, true)) → Inv a.1 ∧ a.1.creating = s.creating := by
-    intro a ha
-    subst ha
-    split
-    · simp only []
-      split
-      · exact ⟨inv_setEnv_state _ _ _ (inv_applyTrans s E _ _ h), rfl⟩
-      · exact ⟨inv_applyTrans s E _ _ h, rfl⟩
-    · exact ⟨h, rfl⟩
-  generalize (if allow && decide (E.state = .RUNNING) then
-        let r := applyTrans s E .STOP o.stopFails
-        if r.2 then (setEnv r.1 k (fun X => { X with state := .CONFIGURED }), EState.CONFIGURED, true)
-        else (r.1, E.state, false)
-      else (s, E.state, true)) = a at hA
-  obtain ⟨ha, hc⟩ := hA a rfl
-  have hp' : ∀ p ∈ a.1.creating, p.id ≠ k := by rw [hc]; exact hp
-  split
-  · exact inv_teardownAndCleanup _ _ _ _ _ _ ha hp'
-  split
-  · exact inv_teardownAndCleanup _ _ _ _ _ _ ha hp'
-  split
-  · split
-    · exact inv_teardownAndCleanup _ _ _ _ _ _ (inv_setEnv_state _ _ _ (inv_applyTrans _ _ _ _ ha)) hp'
-    · exact inv_teardownAndCleanup _ _ _ _ _ _ (inv_applyTrans _ _ _ _ ha) hp'
-  · exact inv_teardownAndCleanup _ _ _ _ _ _ ha hp'
-
+  · exact inv_destroyRest _ _ _ _ _ _ _ (inv_destroyStop s k E allow _ h) (by rw [destroyStop_creating]; exact hp)
 
 end Own
 
@@ -1255,6 +1251,25 @@ theorem killOk_teardownAndCleanup (s : State) (k : EnvId) (ids : List TaskId) (f
   · exact killOk_tcFin _ _ _ _ _ (killOk_congr h (teardown_killLog _ _ _ _ _))
   · exact killOk_tcFin _ _ _ _ _ (killOk_congr h (by rw [teardown_killLog, teardown_killLog]))
 
+theorem killOk_destroyStop (s : State) (k : EnvId) (E : Env) (allow : Bool) (fails : List (TaskId × Bool)) (h : KillOk s) :
+    KillOk (destroyStop s k E allow fails).1 := by
+  unfold destroyStop; split
+  · split <;> exact killOk_congr h rfl
+  · exact h
+
+theorem killOk_destroyRest (s1 : State) (st : EState) (stopOk : Bool) (k : EnvId) (E : Env) (keep : Bool) (o : DOracle)
+    (h : KillOk s1) : KillOk (destroyRest s1 st stopOk k E keep o).1 := by
+  unfold destroyRest
+  split
+  · exact killOk_teardownAndCleanup _ _ _ _ _ _ h
+  split
+  · exact killOk_teardownAndCleanup _ _ _ _ _ _ h
+  split
+  · split
+    · exact killOk_teardownAndCleanup _ _ _ _ _ _ (killOk_congr h rfl)
+    · exact killOk_teardownAndCleanup _ _ _ _ _ _ (killOk_congr h rfl)
+  · exact killOk_teardownAndCleanup _ _ _ _ _ _ h
+
 theorem killOk_destroy (s : State) (k : EnvId) (force allow keep : Bool) (o : DOracle) (h : KillOk s) :
     KillOk (destroy s k force allow keep o).1 := by
   unfold destroy
@@ -1267,33 +1282,7 @@ theorem killOk_destroy (s : State) (k : EnvId) (force allow keep : Bool) (o : DO
   · exact h
   split
   · exact killOk_teardownAndCleanup _ _ _ _ _ _ h
-  simp only []
-  have hA : ∀ (a : State × EState × Bool), a = (if allow && decide (E.state = .RUNNING) then
-        let r := applyTrans s E .STOP o.stopFails
-        if r.2 then (setEnv r.1 k (fun X => { X with state := .CONFIGURED }), EState.CONFIGURED, true)
-        else (r.1, E.state, false)
-      else (s, E.state, true)) → KillOk a.1 := by
-    intro a ha
-    subst ha
-    split
-    · simp only []
-      split <;> exact killOk_congr h rfl
-    · exact h
-  generalize (if allow && decide (E.state = .RUNNING) then
-        let r := applyTrans s E .STOP o.stopFails
-        if r.2 then (setEnv r.1 k (fun X => { X with state := .CONFIGURED }), EState.CONFIGURED, true)
-        else (r.1, E.state, false)
-      else (s, E.state, true)) = a at hA
-  have ha := hA a rfl
-  split
-  · exact killOk_teardownAndCleanup _ _ _ _ _ _ ha
-  split
-  · exact killOk_teardownAndCleanup _ _ _ _ _ _ ha
-  split
-  · split
-    · exact killOk_teardownAndCleanup _ _ _ _ _ _ (killOk_congr ha rfl)
-    · exact killOk_teardownAndCleanup _ _ _ _ _ _ (killOk_congr ha rfl)
-  · exact killOk_teardownAndCleanup _ _ _ _ _ _ ha
+  · exact killOk_destroyRest _ _ _ _ _ _ _ (killOk_destroyStop s k E allow _ h)
 
 theorem killOk_createFail (s : State) (k : EnvId) (ids : List TaskId) (late : Bool) (res : Res) (hf : List TaskId)
     (h : KillOk s) : KillOk (createFail s k ids late res hf).1 := by
@@ -1503,6 +1492,27 @@ theorem sub_teardownAndCleanup (s : State) (k : EnvId) (ids : List TaskId) (forc
 theorem sub_applyTrans (s : State) (E : Env) (ev : CEv) (fails : List (TaskId × Bool)) :
     Sub s (applyTrans s E ev fails).1 := sub_of_same rfl rfl
 
+theorem sub_destroyStop (s : State) (k : EnvId) (E : Env) (allow : Bool) (fails : List (TaskId × Bool)) :
+    Sub s (destroyStop s k E allow fails).1 := by
+  unfold destroyStop; split
+  · split
+    · exact (sub_applyTrans _ _ _ _).trans (sub_setEnv_state _ _ _)
+    · exact sub_applyTrans _ _ _ _
+  · exact Sub.refl s
+
+theorem sub_destroyRest (s1 : State) (st : EState) (stopOk : Bool) (k : EnvId) (E : Env) (keep : Bool) (o : DOracle) :
+    Sub s1 (destroyRest s1 st stopOk k E keep o).1 := by
+  unfold destroyRest
+  split
+  · exact sub_teardownAndCleanup _ _ _ _ _ _
+  split
+  · exact sub_teardownAndCleanup _ _ _ _ _ _
+  split
+  · split
+    · exact ((sub_applyTrans _ _ _ _).trans (sub_setEnv_state _ _ _)).trans (sub_teardownAndCleanup _ _ _ _ _ _)
+    · exact (sub_applyTrans _ _ _ _).trans (sub_teardownAndCleanup _ _ _ _ _ _)
+  · exact sub_teardownAndCleanup _ _ _ _ _ _
+
 theorem sub_destroy (s : State) (k : EnvId) (force allow keep : Bool) (o : DOracle) :
     Sub s (destroy s k force allow keep o).1 := by
   unfold destroy
@@ -1515,35 +1525,7 @@ theorem sub_destroy (s : State) (k : EnvId) (force allow keep : Bool) (o : DOrac
   · exact Sub.refl s
   split
   · exact sub_teardownAndCleanup _ _ _ _ _ _
-  simp only []
-  have hA : ∀ (a : State × EState × Bool), a = (if allow && decide (E.state = .RUNNING) then
-        let r := applyTrans s E .STOP o.stopFails
-        if r.2 then (setEnv r.1 k (fun X => { X with state := .CONFIGURED }), EState.CONFIGURED, true)
-        else (r.1, E.state, false)
-      else (s, E.state, true)) → Sub s a.1 := by
-    intro a ha
-    subst ha
-    split
-    · simp only []
-      split
-      · exact (sub_applyTrans _ _ _ _).trans (sub_setEnv_state _ _ _)
-      · exact sub_applyTrans _ _ _ _
-    · exact Sub.refl s
-  generalize (if allow && decide (E.state = .RUNNING) then
-        let r := applyTrans s E .STOP o.stopFails
-        if r.2 then (setEnv r.1 k (fun X => { X with state := .CONFIGURED }), EState.CONFIGURED, true)
-        else (r.1, E.state, false)
-      else (s, E.state, true)) = a at hA
-  have ha := hA a rfl
-  split
-  · exact ha.trans (sub_teardownAndCleanup _ _ _ _ _ _)
-  split
-  · exact ha.trans (sub_teardownAndCleanup _ _ _ _ _ _)
-  split
-  · split
-    · exact (ha.trans ((sub_applyTrans _ _ _ _).trans (sub_setEnv_state _ _ _))).trans (sub_teardownAndCleanup _ _ _ _ _ _)
-    · exact (ha.trans (sub_applyTrans _ _ _ _)).trans (sub_teardownAndCleanup _ _ _ _ _ _)
-  · exact ha.trans (sub_teardownAndCleanup _ _ _ _ _ _)
+  · exact (sub_destroyStop s k E allow _).trans (sub_destroyRest _ _ _ _ _ _ _)
 
 end Own
 
@@ -1774,5 +1756,928 @@ theorem exclusiveDets_of_detOk (s : State) (h : DetOk s) : exclusiveDets (viewOf
   by_cases hid : E1.id = E2.id
   · left; exact hid
   · right; intro d hdm; exact h E1 h1 E2 h2 hid d hdm
+
+end Own
+
+namespace Own
+
+
+theorem eq_of_nodup_map {α β} (f : α → β) (l : List α) (h : (l.map f).Nodup) {a b : α} (ha : a ∈ l) (hb : b ∈ l)
+    (hab : f a = f b) : a = b := by
+  induction l with
+  | nil => simp at ha
+  | cons x rest ih =>
+    simp only [List.map_cons, List.nodup_cons] at h
+    rcases List.mem_cons.mp ha with ha1 | ha1 <;> rcases List.mem_cons.mp hb with hb1 | hb1
+    · rw [ha1, hb1]
+    · subst ha1; exact absurd (show f a ∈ rest.map f from List.mem_map.mpr ⟨b, hb1, hab.symm⟩) h.1
+    · subst hb1; exact absurd (show f b ∈ rest.map f from List.mem_map.mpr ⟨a, ha1, hab⟩) h.1
+    · exact ih h.2 ha1 hb1
+
+/-- `reuse` never changes and `crashed` only in the one branch of createSettle. -/
+def RC (s s' : State) : Prop := s'.reuse = s.reuse ∧ s'.crashed = s.crashed
+
+theorem RC.refl (s : State) : RC s s := ⟨rfl, rfl⟩
+theorem RC.trans {a b c : State} (h1 : RC a b) (h2 : RC b c) : RC a c := ⟨h2.1.trans h1.1, h2.2.trans h1.2⟩
+
+theorem rc_tdFinish (s1 : State) (k : EnvId) (E : Env) (late : Bool) (hf : List TaskId) : RC s1 (tdFinish s1 k E late hf).1 := by
+  unfold tdFinish
+  simp only []
+  split
+  · exact ⟨rfl, rfl⟩
+  · split <;> exact ⟨rfl, rfl⟩
+
+theorem rc_teardown (s : State) (k : EnvId) (force late : Bool) (hf : List TaskId) : RC s (teardown s k force late hf).1 := by
+  unfold teardown
+  split
+  · exact RC.refl s
+  · rename_i E _
+    split
+    · exact RC.refl s
+    split
+    · exact RC.refl s
+    split
+    · exact RC.refl s
+    simp only []
+    split
+    · exact ⟨rfl, rfl⟩
+    · exact (show RC s (releaseTasks s k (tdPlain E)).1 from ⟨rfl, rfl⟩).trans (rc_tdFinish _ _ _ _ _)
+
+theorem rc_cleanupTasks (s : State) (ids : List TaskId) : RC s (cleanupTasks s ids) := by
+  unfold cleanupTasks; split <;> exact ⟨rfl, rfl⟩
+
+theorem rc_tcFin (keep : Bool) (ids : List TaskId) (s' : State) (res : TRes) (tr : List TEv) : RC s' (tcFin keep ids s' res tr).1 := by
+  unfold tcFin
+  cases res <;> simp only []
+  · split
+    · exact RC.refl _
+    · exact rc_cleanupTasks _ _
+  all_goals exact RC.refl _
+
+theorem rc_teardownAndCleanup (s : State) (k : EnvId) (ids : List TaskId) (force keep : Bool) (o : DOracle) :
+    RC s (teardownAndCleanup s k ids force keep o).1 := by
+  unfold teardownAndCleanup
+  simp only []
+  split
+  · exact (rc_teardown _ _ _ _ _).trans (rc_tcFin _ _ _ _ _)
+  · exact ((rc_teardown _ _ _ _ _).trans (rc_teardown _ _ _ _ _)).trans (rc_tcFin _ _ _ _ _)
+
+theorem rc_destroyStop (s : State) (k : EnvId) (E : Env) (allow : Bool) (fails : List (TaskId × Bool)) :
+    RC s (destroyStop s k E allow fails).1 := by
+  unfold destroyStop; split
+  · split <;> exact ⟨rfl, rfl⟩
+  · exact RC.refl s
+
+theorem rc_destroyRest (s1 : State) (st : EState) (stopOk : Bool) (k : EnvId) (E : Env) (keep : Bool) (o : DOracle) :
+    RC s1 (destroyRest s1 st stopOk k E keep o).1 := by
+  unfold destroyRest
+  split
+  · exact rc_teardownAndCleanup _ _ _ _ _ _
+  split
+  · exact rc_teardownAndCleanup _ _ _ _ _ _
+  split
+  · split
+    · exact (show RC s1 _ from ⟨rfl, rfl⟩).trans (rc_teardownAndCleanup _ _ _ _ _ _)
+    · exact (show RC s1 _ from ⟨rfl, rfl⟩).trans (rc_teardownAndCleanup _ _ _ _ _ _)
+  · exact rc_teardownAndCleanup _ _ _ _ _ _
+
+theorem rc_destroy (s : State) (k : EnvId) (force allow keep : Bool) (o : DOracle) : RC s (destroy s k force allow keep o).1 := by
+  unfold destroy
+  split
+  · exact RC.refl s
+  split
+  · exact RC.refl s
+  rename_i E _
+  split
+  · exact RC.refl s
+  split
+  · exact rc_teardownAndCleanup _ _ _ _ _ _
+  · exact (rc_destroyStop s k E allow _).trans (rc_destroyRest _ _ _ _ _ _ _)
+
+theorem rc_control (s : State) (k : EnvId) (ev : CEv) (fails : List (TaskId × Bool)) (pre : Bool) :
+    RC s (control s k ev fails pre).1 := by
+  unfold control
+  split
+  · exact RC.refl s
+  split
+  · exact RC.refl s
+  · rename_i E _
+    split
+    · exact RC.refl s
+    · split
+      · split
+        · exact RC.refl s
+        · exact ⟨rfl, rfl⟩
+      · split
+        · exact ⟨rfl, rfl⟩
+        · have h0 : RC s (restartCalls s k E ev) := by
+            unfold restartCalls
+            split <;> exact ⟨rfl, rfl⟩
+          generalize restartCalls s k E ev = s0 at h0 ⊢
+          simp only []
+          split <;> exact h0.trans ⟨rfl, rfl⟩
+
+theorem rc_createFail (s : State) (k : EnvId) (ids : List TaskId) (late : Bool) (res : Res) (hf : List TaskId) :
+    RC s (createFail s k ids late res hf).1 := by
+  unfold createFail
+  simp only []
+  have h1 : RC s (teardown (setEnv s k (fun X => { X with state := .ERROR })) k true late hf).1 :=
+    (show RC s (setEnv s k (fun X => { X with state := .ERROR })) from ⟨rfl, rfl⟩).trans (rc_teardown _ _ _ _ _)
+  split
+  · exact h1
+  · exact h1.trans ⟨rfl, rfl⟩
+
+theorem rc_createConfigure (s : State) (k : EnvId) (spec : EnvSpec) (a : Acq) (o : SettleOracle) :
+    RC s (createConfigure s k spec a o).1 := by
+  unfold createConfigure
+  split
+  · exact RC.refl s
+  · simp only []
+    split
+    · exact ⟨rfl, rfl⟩
+    · exact (show RC s _ from ⟨rfl, rfl⟩).trans (rc_createFail _ _ _ _ _ _)
+
+/-- Without reuseUnlockedTasks a settling creation does not end the process. -/
+theorem crash_free_settle (s : State) (k : EnvId) (o : SettleOracle) (hr : s.reuse = false) (hc : s.crashed = false) :
+    (createSettle s k o).1.reuse = false ∧ (createSettle s k o).1.crashed = false := by
+  have fin : ∀ s' : State, RC s s' → s'.reuse = false ∧ s'.crashed = false := fun s' h => ⟨h.1.trans hr, h.2.trans hc⟩
+  unfold createSettle
+  split
+  · exact ⟨hr, hc⟩
+  · rename_i p _
+    simp only []
+    have hd : RC s (dropPending s k) := ⟨rfl, rfl⟩
+    split
+    · exact fin _ (hd.trans (rc_createFail _ _ _ _ _ _))
+    · generalize claimsOf (dropPending s k) p = claims
+      have : (dropPending s k).reuse = false := hr
+      simp only [this, Bool.false_and, Bool.false_eq_true, if_false]
+      have ha : RC s (acquire (dropPending s k) k p.spec claims o).s := hd.trans ⟨rfl, rfl⟩
+      split
+      · exact fin _ (ha.trans (rc_createFail _ _ _ _ _ _))
+      · exact fin _ (ha.trans (rc_createConfigure _ _ _ _ _))
+
+theorem crash_free_control (s : State) (k : EnvId) (ev : CEv) (fails : List (TaskId × Bool)) (pre : Bool)
+    (hr : s.reuse = false) (hc : s.crashed = false) :
+    (control s k ev fails pre).1.reuse = false ∧ (control s k ev fails pre).1.crashed = false :=
+  ⟨(rc_control s k ev fails pre).1.trans hr, (rc_control s k ev fails pre).2.trans hc⟩
+
+theorem crash_free_destroy (s : State) (k : EnvId) (f a kp : Bool) (o : DOracle)
+    (hr : s.reuse = false) (hc : s.crashed = false) :
+    (destroy s k f a kp o).1.reuse = false ∧ (destroy s k f a kp o).1.crashed = false :=
+  ⟨(rc_destroy s k f a kp o).1.trans hr, (rc_destroy s k f a kp o).2.trans hc⟩
+
+end Own
+
+namespace Own
+
+theorem create_conflict_eq (s : State) (k : EnvId) (spec : EnvSpec) (o : SettleOracle)
+    (hfresh : k ∉ s.used) (hok : spec.bad = .ok)
+    (hconf : ∃ d ∈ spec.dets, d ∈ s.activeDets) :
+    create s k spec o = (dropPending (createCleanup (createBegin s k spec).1 k) k, .errDetector) := by
+  have hb2 : (createBegin s k spec).2 = .noop := by simp [createBegin, hfresh, hok]
+  have hb1 : (createBegin s k spec).1 = { s with
+      used := k :: s.used,
+      creating := ({ id := k, spec := spec, snapshot := s.activeDets, cleaned := false, inserted := false, claims := none } : Pending) :: s.creating } := by
+    simp [createBegin, hfresh, hok]
+  have hany : ((createBegin s k spec).1.creating.any (fun p => decide (p.id = k) && !p.cleaned)) = true := by
+    rw [hb1]; simp
+  have hfind : (createCleanup (createBegin s k spec).1 k).pending? k false =
+      some { id := k, spec := spec, snapshot := s.activeDets, cleaned := true, inserted := false, claims := none } := by
+    unfold createCleanup
+    rw [if_pos hany, hb1]
+    simp [State.pending?, cleanup, doKill]
+  have hins : createInsert (createCleanup (createBegin s k spec).1 k) k =
+      (dropPending (createCleanup (createBegin s k spec).1 k) k, .errDetector) := by
+    unfold createInsert
+    rw [hfind]
+    have hd : (spec.dets.any fun d => decide (d ∈ s.activeDets)) = true := by
+      obtain ⟨d, hd, hda⟩ := hconf
+      simp only [List.any_eq_true, decide_eq_true_eq]; exact ⟨d, hd, hda⟩
+    simp [hok, hd]
+  unfold create
+  simp only [hb2, ne_eq, not_true_eq_false, hfresh, or_self, if_false]
+  rw [hins]
+  simp
+
+theorem create_conflict_fields (s : State) (k : EnvId) (spec : EnvSpec) (o : SettleOracle)
+    (hfresh : k ∉ s.used) (hok : spec.bad = .ok)
+    (hconf : ∃ d ∈ spec.dets, d ∈ s.activeDets) :
+    (create s k spec o).2 = .errDetector ∧
+    (create s k spec o).1.envs = s.envs ∧
+    (create s k spec o).1.roster = (cleanup s).roster ∧
+    (create s k spec o).1.master = (cleanup s).master := by
+  rw [create_conflict_eq s k spec o hfresh hok hconf]
+  have hb1 : (createBegin s k spec).1 = { s with
+      used := k :: s.used,
+      creating := ({ id := k, spec := spec, snapshot := s.activeDets, cleaned := false, inserted := false, claims := none } : Pending) :: s.creating } := by
+    simp [createBegin, hfresh, hok]
+  have hany : ((createBegin s k spec).1.creating.any (fun p => decide (p.id = k) && !p.cleaned)) = true := by
+    rw [hb1]; simp
+  refine ⟨rfl, ?_, ?_, ?_⟩ <;>
+  · unfold createCleanup
+    rw [if_pos hany, hb1]
+    rfl
+
+end Own
+
+namespace Own
+
+/-! ### C06: what a completed destroy leaves -/
+
+theorem tdFinish_done_unlisted (s1 : State) (k : EnvId) (E : Env) (late : Bool) (hf : List TaskId) :
+    ((tdFinish s1 k E late hf).2.1 = .ok ∨ (tdFinish s1 k E late hf).2.1 = .doneErr) →
+    ∀ X ∈ (tdFinish s1 k E late hf).1.envs, X.id ≠ k := by
+  unfold tdFinish
+  simp only []
+  split
+  · intro h; simp at h
+  · split
+    · intro h; simp at h
+    · intro _ X hX
+      have := (List.mem_filter.mp hX).2
+      simpa using this
+
+/-- A teardown that ran to completion has taken the environment out of the listing. -/
+theorem teardown_done_unlisted (s : State) (k : EnvId) (force late : Bool) (hf : List TaskId) :
+    ((teardown s k force late hf).2.1 = .ok ∨ (teardown s k force late hf).2.1 = .doneErr) →
+    ∀ E ∈ (teardown s k force late hf).1.envs, E.id ≠ k := by
+  unfold teardown
+  split
+  · intro h; simp at h
+  · split
+    · intro h; simp at h
+    split
+    · intro h; simp at h
+    split
+    · intro h; simp at h
+    simp only []
+    split
+    · intro h; simp at h
+    · exact tdFinish_done_unlisted _ _ _ _ _
+
+theorem cleanupTasks_envs (s : State) (ids : List TaskId) : (cleanupTasks s ids).envs = s.envs := by
+  unfold cleanupTasks; split <;> rfl
+
+theorem tcFin_ok (keep : Bool) (ids : List TaskId) (s' : State) (res : TRes) (tr : List TEv) :
+    (tcFin keep ids s' res tr).2.1 = .ok → res = .ok ∧ (tcFin keep ids s' res tr).1.envs = s'.envs := by
+  unfold tcFin
+  cases res <;> simp only []
+  · intro _
+    refine ⟨trivial, ?_⟩
+    split
+    · rfl
+    · exact cleanupTasks_envs _ _
+  all_goals (intro h; simp at h)
+
+theorem teardownAndCleanup_ok_unlisted (s : State) (k : EnvId) (ids : List TaskId) (force keep : Bool) (o : DOracle) :
+    (teardownAndCleanup s k ids force keep o).2.1 = .ok →
+    ∀ E ∈ (teardownAndCleanup s k ids force keep o).1.envs, E.id ≠ k := by
+  unfold teardownAndCleanup
+  simp only []
+  split
+  · intro h
+    obtain ⟨a, b⟩ := tcFin_ok _ _ _ _ _ h
+    rw [b]; exact teardown_done_unlisted _ _ _ _ _ (Or.inl a)
+  · intro h
+    obtain ⟨a, b⟩ := tcFin_ok _ _ _ _ _ h
+    rw [b]; exact teardown_done_unlisted _ _ _ _ _ (Or.inl a)
+
+theorem destroyRest_ok_unlisted (s1 : State) (st : EState) (stopOk : Bool) (k : EnvId) (E : Env) (keep : Bool) (o : DOracle) :
+    (destroyRest s1 st stopOk k E keep o).2.1 = .ok →
+    ∀ X ∈ (destroyRest s1 st stopOk k E keep o).1.envs, X.id ≠ k := by
+  unfold destroyRest
+  split
+  · exact teardownAndCleanup_ok_unlisted _ _ _ _ _ _
+  split
+  · exact teardownAndCleanup_ok_unlisted _ _ _ _ _ _
+  split
+  · split
+    · exact teardownAndCleanup_ok_unlisted _ _ _ _ _ _
+    · exact teardownAndCleanup_ok_unlisted _ _ _ _ _ _
+  · exact teardownAndCleanup_ok_unlisted _ _ _ _ _ _
+
+theorem destroy_ok_unlisted (s : State) (k : EnvId) (force allow keep : Bool) (o : DOracle) :
+    (destroy s k force allow keep o).2.1 = .ok →
+    ∀ E ∈ (destroy s k force allow keep o).1.envs, E.id ≠ k := by
+  unfold destroy
+  split
+  · intro h; simp at h
+  split
+  · intro h; simp at h
+  split
+  · intro h; simp at h
+  split
+  · exact teardownAndCleanup_ok_unlisted _ _ _ _ _ _
+  · exact destroyRest_ok_unlisted _ _ _ _ _ _ _
+
+/-- After a ReleaseTasks message without release errors every named task is unlocked. -/
+theorem released_unlocked (s : State) (e : EnvId) (ids : List TaskId) (h0 : (releaseTasks s e ids).2 = 0) :
+    ∀ t ∈ (releaseTasks s e ids).1.roster, t.id ∈ ids → t.isLocked = false := by
+  intro t' ht' hid
+  simp only [releaseTasks, List.mem_map] at ht'
+  obtain ⟨t, ht, rfl⟩ := ht'
+  simp only [releaseTasks, List.length_eq_zero_iff, List.filter_eq_nil_iff] at h0
+  have h1 := h0 t ht
+  by_cases hi : t.id ∈ ids
+  · simp only [hi, decide_true, Bool.true_and, Bool.not_eq_true', Bool.not_eq_false] at h1
+    simp only [hi, if_true]
+    simp [releaseTask, h1, Task.isLocked]
+  · exfalso
+    apply hi
+    simpa [hi] using hid
+
+/-- The trace of a teardown: if a DESTROY hook was triggered at all, the first thing the
+    teardown did was the ReleaseTasks message for every task that is not a DESTROY hook, that
+    message met no release error, and in the state the hooks ran in none of those tasks is locked. -/
+theorem teardown_hooks_after_release (s : State) (k : EnvId) (force late : Bool) (hf : List TaskId) (E : Env)
+    (hE : s.env? k = some E) (hs : List TaskId) (hh : TEv.hooks hs ∈ (teardown s k force late hf).2.2) :
+    (teardown s k force late hf).2.2.head? = some (.release (tdPlain E)) ∧
+    (releaseTasks s k (tdPlain E)).2 = 0 ∧
+    (∀ t ∈ (releaseTasks s k (tdPlain E)).1.roster, t.id ∈ tdPlain E → t.isLocked = false) ∧
+    (∀ x ∈ E.tasks, x ∉ effHooks E.hooks → x ∈ tdPlain E) := by
+  have hplain : ∀ x ∈ E.tasks, x ∉ effHooks E.hooks → x ∈ tdPlain E := by
+    intro x hx hn; exact List.mem_filter.mpr ⟨hx, by simpa using hn⟩
+  unfold teardown at hh ⊢
+  rw [hE] at hh ⊢
+  simp only [] at hh ⊢
+  split at hh
+  · simp at hh
+  split at hh
+  · simp at hh
+  split at hh
+  · simp at hh
+  split at hh
+  · simp at hh
+  · rename_i h1 h2 h3 h4
+    have h0 : (releaseTasks s k (tdPlain E)).2 = 0 := by omega
+    rw [if_neg h1, if_neg h2, if_neg h3, if_neg h4]
+    refine ⟨?_, h0, released_unlocked s k _ h0, hplain⟩
+    unfold tdFinish
+    simp only []
+    split
+    · simp [tdTrace]
+    · split <;> simp [tdTrace]
+
+end Own
+
+namespace Own
+
+
+/-- Releasing every task of the list. -/
+def relAll (tasks : List TaskId) (t : Task) : Task := if t.id ∈ tasks then { t with parent := none } else t
+
+theorem roleActive_map (s : State) (g : Task → Task) (hg : ∀ t, (g t).id = t.id ∧ (g t).active = t.active)
+    (s1 : State) (hr : s1.roster = s.roster.map g) (x : TaskId) : roleActive s1 x = roleActive s x := by
+  simp only [roleActive, hr, List.any_map]
+  congr 1
+  funext t
+  simp [(hg t).1, (hg t).2]
+
+theorem relMap_active (e : EnvId) (ids : List TaskId) (t : Task) :
+    (relMap e ids t).id = t.id ∧ (relMap e ids t).active = t.active := by
+  unfold relMap releaseTask
+  split
+  · split <;> simp
+  · simp
+
+theorem singleWeight_cases (hs : List HookRef) (h : singleWeight hs = true) :
+    weightsOf hs = [] ∨ ∃ w, weightsOf hs = [w] := by
+  simp only [singleWeight, decide_eq_true_eq] at h
+  match hw : weightsOf hs with
+  | [] => left; rfl
+  | [w] => right; exact ⟨w, rfl⟩
+  | a :: b :: rest => rw [hw] at h; simp at h
+
+/-- Under the two hypotheses the two ReleaseTasks messages of a teardown release exactly
+    the environment's tasks. -/
+theorem release_all (s : State) (k : EnvId) (E : Env) (hwf : envWf s k E.tasks = true)
+    (hrel : hooksReleasable s E.hooks = true) (hhk : ∀ h ∈ E.hooks, h.task ∈ E.tasks)
+    (s1 : State) (hs1 : s1.roster = s.roster.map (relMap k (tdPlain E))) :
+    ∀ t ∈ s.roster, relMap k (tdMsg s1 E) (relMap k (tdPlain E) t) = relAll E.tasks t := by
+  simp only [envWf, Bool.and_eq_true, List.all_eq_true, Bool.or_eq_true, decide_eq_true_eq] at hwf
+  obtain ⟨⟨⟨⟨⟨_, hP2⟩, _⟩, _⟩, _⟩, _⟩ := hwf
+  simp only [hooksReleasable, Bool.and_eq_true, List.all_eq_true] at hrel
+  obtain ⟨hsw, hact⟩ := hrel
+  have hmsgsub := tdMsg_sub s1 E hhk
+  -- hook tasks are all in the second message
+  have hmsg : ∀ x ∈ effHooks E.hooks, x ∈ tdMsg s1 E := by
+    intro x hx
+    rcases singleWeight_cases _ hsw with h0 | ⟨w, hw⟩
+    · simp [effHooks, h0] at hx
+    · simp only [effHooks, hw, List.flatMap_cons, List.flatMap_nil, List.append_nil] at hx
+      simp only [tdMsg, hw, List.getLast?_singleton, tdRun]
+      refine List.mem_filter.mpr ⟨hx, ?_⟩
+      rw [roleActive_map s _ (relMap_active k (tdPlain E)) s1 hs1]
+      apply hact
+      simp only [effHooks, hw, List.flatMap_cons, List.flatMap_nil, List.append_nil]; exact hx
+  intro t ht
+  by_cases hin : t.id ∈ E.tasks
+  · have hpar : t.parent = some k := by
+      have := hP2 t ht
+      rcases this with h | h
+      · exact absurd hin h
+      · exact h.1
+    have hok : releaseOk k t = true := releaseOk_of_parent k t (Or.inl hpar)
+    simp only [relAll, hin, if_true]
+    by_cases hpl : t.id ∈ tdPlain E
+    · have h1 : relMap k (tdPlain E) t = { t with parent := none } := by simp [relMap, hpl, releaseTask, hok]
+      rw [h1]
+      by_cases hm : t.id ∈ tdMsg s1 E
+      · simp [relMap, hm, releaseTask, releaseOk, Task.isLocked]
+      · simp [relMap, hm]
+    · have h1 : relMap k (tdPlain E) t = t := by simp [relMap, hpl]
+      rw [h1]
+      have heff : t.id ∈ effHooks E.hooks := by
+        by_cases hne : t.id ∈ effHooks E.hooks
+        · exact hne
+        · exact absurd (List.mem_filter.mpr ⟨hin, by simpa using hne⟩) hpl
+      have hm := hmsg _ heff
+      simp [relMap, hm, releaseTask, hok]
+  · have h1 : t.id ∉ tdPlain E := fun h => hin (tdPlain_sub E _ h)
+    have h2 : t.id ∉ tdMsg s1 E := fun h => hin (hmsgsub _ h)
+    simp [relAll, hin, relMap, h1, h2]
+
+end Own
+
+namespace Own
+
+/-- `s1` differs from `s` only in task states and environment states (what STOP / RESET / GO_ERROR change). -/
+structure SameOwn (s s1 : State) : Prop where
+  roster : ∃ g : Task → Task, (∀ t, (g t).id = t.id ∧ (g t).parent = t.parent ∧ (g t).idsOk = t.idsOk ∧ (g t).active = t.active) ∧
+    s1.roster = s.roster.map g
+  master : s1.master = s.master
+  dead : s1.dead = s.dead
+  killLog : s1.killLog = s.killLog
+  envs : ∃ f : Env → Env, (∀ E, (f E).id = E.id ∧ (f E).tasks = E.tasks ∧ (f E).hooks = E.hooks ∧ (f E).tearing = E.tearing ∧
+      (f E).dets = E.dets ∧ (f E).started = E.started ∧ (f E).cancelled = E.cancelled ∧ (f E).pending = E.pending) ∧
+    s1.envs = s.envs.map f
+
+theorem SameOwn.refl (s : State) : SameOwn s s :=
+  ⟨⟨id, fun _ => ⟨rfl, rfl, rfl, rfl⟩, by simp⟩, rfl, rfl, rfl, ⟨id, fun _ => ⟨rfl, rfl, rfl, rfl, rfl, rfl, rfl, rfl⟩, by simp⟩⟩
+
+theorem SameOwn.trans {a b c : State} (h1 : SameOwn a b) (h2 : SameOwn b c) : SameOwn a c := by
+  obtain ⟨g1, hg1, r1⟩ := h1.roster
+  obtain ⟨g2, hg2, r2⟩ := h2.roster
+  obtain ⟨f1, hf1, e1⟩ := h1.envs
+  obtain ⟨f2, hf2, e2⟩ := h2.envs
+  refine ⟨⟨g2 ∘ g1, ?_, by rw [r2, r1, List.map_map]⟩, h2.master.trans h1.master, h2.dead.trans h1.dead,
+    h2.killLog.trans h1.killLog, ⟨f2 ∘ f1, ?_, by rw [e2, e1, List.map_map]⟩⟩
+  · intro t
+    obtain ⟨a1, a2, a3, a4⟩ := hg1 t
+    obtain ⟨b1, b2, b3, b4⟩ := hg2 (g1 t)
+    exact ⟨b1.trans a1, b2.trans a2, b3.trans a3, b4.trans a4⟩
+  · intro E
+    obtain ⟨a1, a2, a3, a4, a5, a6, a7, a8⟩ := hf1 E
+    obtain ⟨b1, b2, b3, b4, b5, b6, b7, b8⟩ := hf2 (f1 E)
+    exact ⟨b1.trans a1, b2.trans a2, b3.trans a3, b4.trans a4, b5.trans a5, b6.trans a6, b7.trans a7, b8.trans a8⟩
+
+theorem sameOwn_applyTrans (s : State) (E : Env) (ev : CEv) (fails : List (TaskId × Bool)) :
+    SameOwn s (applyTrans s E ev fails).1 := by
+  refine ⟨⟨_, ?_, rfl⟩, rfl, rfl, rfl, ⟨id, fun _ => ⟨rfl, rfl, rfl, rfl, rfl, rfl, rfl, rfl⟩, by simp [applyTrans]⟩⟩
+  intro t
+  by_cases ht : isTarget E t
+  · simp only [ht, if_true]
+    cases hl : fails.lookup t.id with
+    | none => simp [Task.idsOk]
+    | some b => cases b <;> simp [Task.idsOk]
+  · simp [ht]
+
+theorem sameOwn_setEnv_state (s : State) (k : EnvId) (st : EState) :
+    SameOwn s (setEnv s k (fun X => { X with state := st })) := by
+  refine ⟨⟨id, fun _ => ⟨rfl, rfl, rfl, rfl⟩, by simp [setEnv]⟩, rfl, rfl, rfl,
+    ⟨fun E => if E.id = k then { E with state := st } else E, ?_, rfl⟩⟩
+  intro E; by_cases hk : E.id = k <;> simp [hk]
+
+theorem sameOwn_destroyStop (s : State) (k : EnvId) (E : Env) (allow : Bool) (fails : List (TaskId × Bool)) :
+    SameOwn s (destroyStop s k E allow fails).1 := by
+  unfold destroyStop; split
+  · split
+    · exact (sameOwn_applyTrans _ _ _ _).trans (sameOwn_setEnv_state _ _ _)
+    · exact sameOwn_applyTrans _ _ _ _
+  · exact SameOwn.refl s
+
+/-- The hypotheses of the clean-destroy theorem only look at what `SameOwn` keeps. -/
+theorem hyps_transfer {s s1 : State} (h : SameOwn s s1) (k : EnvId) (tasks : List TaskId) (hooks : List HookRef) :
+    envWf s1 k tasks = envWf s k tasks ∧ statusFaithful s1 tasks = statusFaithful s tasks ∧
+    hooksReleasable s1 hooks = hooksReleasable s hooks := by
+  obtain ⟨g, hg, hr⟩ := h.roster
+  refine ⟨?_, ?_, ?_⟩
+  · obtain ⟨f, hf, he⟩ := h.envs
+    simp only [envWf, hr, h.master, h.dead, he, List.all_map, List.any_map, List.map_map]
+    have e5 : (fun X : Env => decide (X.id ≠ k) || decide (X.started = X.cancelled + X.pending)) ∘ f =
+        (fun X : Env => decide (X.id ≠ k) || decide (X.started = X.cancelled + X.pending)) := by
+      funext X
+      obtain ⟨a1, _, _, _, _, a6, a7, a8⟩ := hf X
+      simp [a1, a6, a7, a8]
+    have e1 : (fun t => decide (t.parent ≠ some k) || decide (t.id ∈ tasks)) ∘ g = (fun t => decide (t.parent ≠ some k) || decide (t.id ∈ tasks)) := by
+      funext t; simp [(hg t).1, (hg t).2.1]
+    have e2 : (fun t => decide (t.id ∉ tasks) || (decide (t.parent = some k) && t.idsOk)) ∘ g = (fun t => decide (t.id ∉ tasks) || (decide (t.parent = some k) && t.idsOk)) := by
+      funext t; simp [(hg t).1, (hg t).2.1, (hg t).2.2.1]
+    have e3 : ∀ m : MTask, ((fun t => decide (t.id = m.id)) ∘ g) = (fun t => decide (t.id = m.id)) := by
+      intro m; funext t; simp [(hg t).1]
+    have e4 : ((fun x => x.id) ∘ g) = (fun x : Task => x.id) := by funext t; exact (hg t).1
+    simp only [e1, e2, e3, e4, e5]
+  · simp only [statusFaithful, hr, h.master, List.all_map]
+    congr 1
+    funext t
+    simp [(hg t).1, (hg t).2.2.2]
+  · simp only [hooksReleasable]
+    congr 1
+    have : roleActive s1 = roleActive s := by
+      funext x; exact roleActive_map s g (fun t => ⟨(hg t).1, (hg t).2.2.2⟩) s1 hr x
+    rw [this]
+
+end Own
+
+namespace Own
+
+theorem wf_parent (s : State) (k : EnvId) (tasks : List TaskId) (hwf : envWf s k tasks = true) :
+    ∀ t ∈ s.roster, t.id ∈ tasks → t.parent = some k := by
+  simp only [envWf, Bool.and_eq_true, List.all_eq_true, Bool.or_eq_true, decide_eq_true_eq] at hwf
+  intro t ht hin
+  rcases hwf.1.1.1.1.2 t ht with h | h
+  · exact absurd hin h
+  · exact h.1
+
+/-- What a teardown that runs to completion leaves, under the well-formedness and
+    hook hypotheses: exactly the environment's tasks released, the master and the kill log
+    untouched, the environment out of the listing and its call counters in `dead`. -/
+theorem teardown_done_state (s : State) (k : EnvId) (force late : Bool) (hf : List TaskId) (E : Env)
+    (hE : s.env? k = some E) (hwf : envWf s k E.tasks = true) (hrel : hooksReleasable s E.hooks = true)
+    (hhk : ∀ h ∈ E.hooks, h.task ∈ E.tasks)
+    (hdone : (teardown s k force late hf).2.1 = .ok ∨ (teardown s k force late hf).2.1 = .doneErr) :
+    (teardown s k force late hf).1.roster = s.roster.map (relAll E.tasks) ∧
+    (teardown s k force late hf).1.master = s.master ∧
+    (teardown s k force late hf).1.killLog = s.killLog ∧
+    (∀ X ∈ (teardown s k force late hf).1.envs, X ∈ s.envs ∧ X.id ≠ k) ∧
+    (∀ X ∈ s.envs, X.id ≠ k → X ∈ (teardown s k force late hf).1.envs) ∧
+    (teardown s k force late hf).1.dead = s.dead ++ (s.envs.filter (fun X => decide (X.id = k))).map
+      (fun X => (X.id, X.started, X.cancelled + X.pending)) := by
+  have hpar := wf_parent s k E.tasks hwf
+  have herr1 : (releaseTasks s k (tdPlain E)).2 = 0 :=
+    releaseTasks_errs_zero s k _ (fun t ht hx => Or.inl (hpar t ht (tdPlain_sub E _ hx)))
+  revert hdone
+  unfold teardown
+  rw [hE]
+  simp only []
+  split
+  · intro h; simp at h
+  split
+  · intro h; simp at h
+  split
+  · intro h; simp at h
+  rw [herr1]
+  simp only [Nat.lt_irrefl, if_false]
+  unfold tdFinish
+  simp only []
+  split
+  · intro h; simp at h
+  have hr2 : (tdCancel (releaseTasks s k (tdPlain E)).1 k E).roster = s.roster.map (relMap k (tdPlain E)) := rfl
+  have herr2 : (releaseTasks (tdCancel (releaseTasks s k (tdPlain E)).1 k E) k (tdMsg (releaseTasks s k (tdPlain E)).1 E)).2 = 0 := by
+    apply releaseTasks_errs_zero
+    intro t' ht' hx
+    rw [hr2] at ht'
+    obtain ⟨t, ht, rfl⟩ := List.mem_map.mp ht'
+    obtain ⟨x, _, z⟩ := relMap_props k (tdPlain E) t
+    rw [x] at hx
+    have := hpar t ht (tdMsg_sub _ E hhk _ hx)
+    rcases z with z | z
+    · left; rw [z]; exact this
+    · right; exact z.1
+  rw [herr2]
+  simp only [Nat.lt_irrefl, if_false]
+  intro _
+  have henvs : (releaseTasks (tdCancel (releaseTasks s k (tdPlain E)).1 k E) k (tdMsg (releaseTasks s k (tdPlain E)).1 E)).1.envs =
+      s.envs.map (fun X => if X.id = k then { X with cancelled := X.cancelled + X.pending, pending := 0 } else X) := rfl
+  refine ⟨?_, rfl, rfl, ?_, ?_, ?_⟩
+  · show ((s.roster.map (relMap k (tdPlain E))).map (relMap k (tdMsg (releaseTasks s k (tdPlain E)).1 E))) = _
+    rw [List.map_map]
+    apply List.map_congr_left
+    intro t ht
+    exact release_all s k E hwf hrel hhk _ rfl t ht
+  · intro X hX
+    obtain ⟨hm, hne⟩ := List.mem_filter.mp hX
+    rw [henvs] at hm
+    obtain ⟨Y, hY, rfl⟩ := List.mem_map.mp hm
+    by_cases hk : Y.id = k
+    · simp [hk] at hne
+    · simp only [hk, if_false]; exact ⟨hY, hk⟩
+  · intro X hX hne
+    refine List.mem_filter.mpr ⟨?_, by simpa using hne⟩
+    rw [henvs]
+    exact List.mem_map.mpr ⟨X, hX, by simp [hne]⟩
+  · show s.dead ++ _ = _
+    congr 1
+    rw [henvs, List.filter_map, List.map_map]
+    have : (fun X : Env => decide (X.id = k)) ∘ (fun X => if X.id = k then { X with cancelled := X.cancelled + X.pending, pending := 0 } else X) = (fun X => decide (X.id = k)) := by
+      funext X; by_cases hk : X.id = k <;> simp [hk]
+    rw [this]
+    apply List.map_congr_left
+    intro X hX
+    have hk : X.id = k := by simpa using (List.mem_filter.mp hX).2
+    simp [hk]
+
+/-- A teardown that answers "error" or "not found" has, under well-formedness, changed nothing. -/
+theorem teardown_err_unchanged (s : State) (k : EnvId) (force late : Bool) (hf : List TaskId)
+    (hwf : ∀ E, s.env? k = some E → envWf s k E.tasks = true ∧ (∀ h ∈ E.hooks, h.task ∈ E.tasks))
+    (herr : (teardown s k force late hf).2.1 = .err ∨ (teardown s k force late hf).2.1 = .notfound) :
+    (teardown s k force late hf).1 = s := by
+  revert herr
+  unfold teardown
+  split
+  · intro _; rfl
+  · rename_i E hE
+    obtain ⟨hw, hhk⟩ := hwf E hE
+    have hpar := wf_parent s k E.tasks hw
+    have herr1 : (releaseTasks s k (tdPlain E)).2 = 0 :=
+      releaseTasks_errs_zero s k _ (fun t ht hx => Or.inl (hpar t ht (tdPlain_sub E _ hx)))
+    split
+    · intro _; rfl
+    split
+    · intro _; rfl
+    split
+    · intro _; rfl
+    simp only []
+    rw [herr1]
+    simp only [Nat.lt_irrefl, if_false]
+    unfold tdFinish
+    simp only []
+    split
+    · intro h; simp at h
+    have hr2 : (tdCancel (releaseTasks s k (tdPlain E)).1 k E).roster = s.roster.map (relMap k (tdPlain E)) := rfl
+    have herr2 : (releaseTasks (tdCancel (releaseTasks s k (tdPlain E)).1 k E) k (tdMsg (releaseTasks s k (tdPlain E)).1 E)).2 = 0 := by
+      apply releaseTasks_errs_zero
+      intro t' ht' hx
+      rw [hr2] at ht'
+      obtain ⟨t, ht, rfl⟩ := List.mem_map.mp ht'
+      obtain ⟨x, _, z⟩ := relMap_props k (tdPlain E) t
+      rw [x] at hx
+      have := hpar t ht (tdMsg_sub _ E hhk _ hx)
+      rcases z with z | z
+      · left; rw [z]; exact this
+      · right; exact z.1
+    rw [herr2]
+    simp only [Nat.lt_irrefl, if_false]
+    intro h
+    split at h <;> simp at h
+
+end Own
+
+namespace Own
+
+theorem env?_none_of_unlisted (s : State) (k : EnvId) (h : ∀ E ∈ s.envs, E.id ≠ k) : s.env? k = none := by
+  unfold State.env?
+  rw [List.find?_eq_none]
+  intro E hE
+  simpa using h E hE
+
+/-- `cleanAfter` for the state a completed teardown (plus the task cleanup, unless tasks are kept) leaves. -/
+theorem clean_of_done (s D : State) (k : EnvId) (keep : Bool) (E : Env)
+    (hwf : envWf s k E.tasks = true) (hfaith : statusFaithful s E.tasks = true)
+    (hD1 : D.roster = s.roster.map (relAll E.tasks)) (hD2 : D.master = s.master)
+    (hD4 : ∀ X ∈ D.envs, X ∈ s.envs ∧ X.id ≠ k)
+    (hD6 : D.dead = s.dead ++ (s.envs.filter (fun X => decide (X.id = k))).map (fun X => (X.id, X.started, X.cancelled + X.pending))) :
+    cleanAfter k keep (viewOf (if keep then D else cleanupTasks D E.tasks)) = true := by
+  simp only [envWf, Bool.and_eq_true, List.all_eq_true, Bool.or_eq_true, decide_eq_true_eq, List.any_eq_true] at hwf
+  obtain ⟨⟨⟨⟨⟨hP1, hP2⟩, hP3⟩, _⟩, hP5⟩, hP6⟩ := hwf
+  simp only [statusFaithful, List.all_eq_true, Bool.or_eq_true, decide_eq_true_eq] at hfaith
+  -- facts about the final state F
+  have hFenvs : (if keep then D else cleanupTasks D E.tasks).envs = D.envs := by
+    split
+    · rfl
+    · exact cleanupTasks_envs _ _
+  have hFdead : (if keep then D else cleanupTasks D E.tasks).dead = D.dead := by
+    split
+    · rfl
+    · unfold cleanupTasks; split <;> rfl
+  have hFroster : ∀ t' ∈ (if keep then D else cleanupTasks D E.tasks).roster, t' ∈ D.roster := by
+    intro t' ht'
+    split at ht'
+    · exact ht'
+    · unfold cleanupTasks at ht'
+      split at ht' <;> exact (List.mem_filter.mp ht').1
+  have hDpar : ∀ t' ∈ D.roster, t'.parent ≠ some k := by
+    intro t' ht'
+    rw [hD1] at ht'
+    obtain ⟨t, ht, rfl⟩ := List.mem_map.mp ht'
+    unfold relAll
+    by_cases hin : t.id ∈ E.tasks
+    · simp [hin]
+    · simp only [hin, if_false]
+      rcases hP1 t ht with h | h
+      · exact h
+      · exact absurd h hin
+  simp only [cleanAfter, viewOf, Bool.and_eq_true, List.all_eq_true, List.mem_map, forall_exists_index, and_imp,
+    forall_apply_eq_imp_iff₂, decide_eq_true_eq, Bool.or_eq_true, List.any_eq_true, List.mem_append]
+  refine ⟨⟨⟨⟨?_, ?_⟩, ?_⟩, ?_⟩, ?_⟩
+  · intro X hX; rw [hFenvs] at hX; exact (hD4 X hX).2
+  · intro t' ht'; exact hDpar t' (hFroster t' ht')
+  · by_cases hk : keep = true
+    · left; exact hk
+    · right
+      simp only [hk, if_false, Bool.false_eq_true]
+      intro m' hm'
+      -- the rows of the master after the kill
+      have hmaster : ∃ m ∈ s.master, m'.id = m.id ∧ m'.label = m.label ∧
+          ((m.mesos = .terminal → m'.mesos = .terminal)) ∧
+          (∀ t' ∈ D.roster, t'.id = m.id → t'.isLocked = false → t'.active = true → (E.tasks = [] ∨ t'.id ∈ E.tasks) → m'.killed = true) := by
+        unfold cleanupTasks at hm'
+        split at hm'
+        · rename_i hnil
+          simp only [cleanup, doKill, killMany, List.mem_map, hD2] at hm'
+          obtain ⟨m, hm, rfl⟩ := hm'
+          refine ⟨m, hm, ?_, ?_, ?_, ?_⟩
+          · split <;> rfl
+          · split <;> rfl
+          · intro h; split <;> simp [h]
+          · intro t' ht' hid hl ha _
+            have : m.id ∈ List.map (fun x => x.id) (List.filter (fun x => x.active) (List.filter (fun t => !t.isLocked) D.roster)) :=
+              List.mem_map.mpr ⟨t', List.mem_filter.mpr ⟨List.mem_filter.mpr ⟨ht', by simp [hl]⟩, ha⟩, hid⟩
+            rw [if_pos (by simpa [List.mem_map] using this)]
+        · rename_i hnil
+          simp only [killTasks, doKill, killMany, List.mem_map, hD2] at hm'
+          obtain ⟨m, hm, rfl⟩ := hm'
+          refine ⟨m, hm, ?_, ?_, ?_, ?_⟩
+          · split <;> rfl
+          · split <;> rfl
+          · intro h; split <;> simp [h]
+          · intro t' ht' hid hl ha hin
+            have hin' : t'.id ∈ E.tasks := by
+              rcases hin with h | h
+              · exact absurd h hnil
+              · exact h
+            have : m.id ∈ List.map (fun x => x.id) (List.filter (fun x => x.active)
+                (List.filter (fun t => !t.isLocked && decide (t.id ∈ E.tasks)) D.roster)) :=
+              List.mem_map.mpr ⟨t', List.mem_filter.mpr ⟨List.mem_filter.mpr ⟨ht', by simp [hl, hin']⟩, ha⟩, hid⟩
+            rw [if_pos (by simpa [List.mem_map] using this)]
+      obtain ⟨m, hm, hid, hlab, hterm, hkill⟩ := hmaster
+      by_cases hl : m'.label = k
+      · -- a task launched for k: it is one of E's tasks and has a roster entry
+        have hmk : m.label = k := by rw [← hlab]; exact hl
+        rcases hP3 m hm with h | ⟨hin, t, ht, hte⟩
+        · exact absurd hmk h
+        · have hte' : t.id = m.id := by simpa using hte
+          have ht' : relAll E.tasks t ∈ D.roster := by rw [hD1]; exact List.mem_map_of_mem ht
+          have hrel : relAll E.tasks t = { t with parent := none } := by simp [relAll, hte', hin]
+          by_cases ha : t.active = true
+          · left; left; right
+            apply hkill (relAll E.tasks t) ht'
+            · rw [hrel]; exact hte'
+            · rw [hrel]; simp [Task.isLocked]
+            · rw [hrel]; exact ha
+            · right; rw [hrel]; show t.id ∈ E.tasks; rw [hte']; exact hin
+          · left; right
+            apply hterm
+            rcases hfaith t ht with h | h
+            · rcases h with h | h
+              · exact absurd (hte' ▸ hin) h
+              · exact absurd h ha
+            · rcases h m hm with h | h
+              · exact absurd hte'.symm h
+              · exact h
+      · left; left; left; exact hl
+  · intro d hd
+    rw [hFenvs]
+    simp only [State.activeDets, List.mem_flatMap] at hd
+    obtain ⟨X, hX, hdX⟩ := hd
+    rw [hFenvs] at hX
+    exact ⟨_, ⟨X, hX, rfl⟩, hdX⟩
+  · intro c hc
+    rw [hFenvs, hFdead, hD6] at hc
+    rcases hc with ⟨X, hX, rfl⟩ | hc
+    · left; exact (hD4 X hX).2
+    · rcases List.mem_append.mp hc with hc | hc
+      · left; exact hP6 c hc
+      · right
+        obtain ⟨X, hX, rfl⟩ := List.mem_map.mp hc
+        obtain ⟨hXm, hXk⟩ := List.mem_filter.mp hX
+        rcases hP5 X hXm with h | h
+        · exact absurd (by simpa using hXk) h
+        · exact h
+
+end Own
+
+namespace Own
+
+theorem teardown_notfound (s : State) (k : EnvId) (f l : Bool) (hf : List TaskId) (h : s.env? k = none) :
+    (teardown s k f l hf).2.1 = .notfound := by
+  unfold teardown; rw [h]
+
+/-- doTeardownAndCleanup answering success leaves the environment clean, under the hypotheses. -/
+theorem tac_clean (s : State) (k : EnvId) (force keep : Bool) (o : DOracle) (E : Env)
+    (hE : s.env? k = some E) (hwf : envWf s k E.tasks = true) (hfaith : statusFaithful s E.tasks = true)
+    (hrel : hooksReleasable s E.hooks = true) (hhk : ∀ h ∈ E.hooks, h.task ∈ E.tasks)
+    (hok : (teardownAndCleanup s k E.tasks force keep o).2.1 = .ok) :
+    cleanAfter k keep (viewOf (teardownAndCleanup s k E.tasks force keep o).1) = true := by
+  have hwf' : ∀ E', s.env? k = some E' → envWf s k E'.tasks = true ∧ (∀ h ∈ E'.hooks, h.task ∈ E'.tasks) := by
+    intro E' hE'; rw [hE] at hE'; injection hE' with hE'; subst hE'; exact ⟨hwf, hhk⟩
+  -- the state of a completed teardown gives the claim
+  have fin : ∀ (f l : Bool) (tr : List TEv), (teardown s k f l o.hookFails).2.1 = .ok →
+      cleanAfter k keep (viewOf (tcFin keep E.tasks (teardown s k f l o.hookFails).1 .ok tr).1) = true := by
+    intro f l tr hdone
+    obtain ⟨a1, a2, _, a4, _, a6⟩ := teardown_done_state s k f l o.hookFails E hE hwf hrel hhk (Or.inl hdone)
+    have := clean_of_done s _ k keep E hwf hfaith a1 a2 a4 a6
+    simp only [tcFin]
+    split
+    · rename_i hk; simpa [hk] using this
+    · rename_i hk; simpa [hk] using this
+  revert hok
+  unfold teardownAndCleanup
+  simp only []
+  split
+  · intro hok
+    obtain ⟨a, _⟩ := tcFin_ok _ _ _ _ _ hok
+    rw [a]; exact fin _ _ _ a
+  · rename_i hcase
+    intro hok
+    obtain ⟨a, _⟩ := tcFin_ok _ _ _ _ _ hok
+    -- the first attempt ended in err / notfound / doneErr
+    have h1 : (teardown s k force o.late1 o.hookFails).2.1 = .err ∨ (teardown s k force o.late1 o.hookFails).2.1 = .notfound
+        ∨ (teardown s k force o.late1 o.hookFails).2.1 = .doneErr := by
+      cases hr : (teardown s k force o.late1 o.hookFails).2.1 <;> simp_all
+    rcases h1 with h1 | h1 | h1
+    · have hs := teardown_err_unchanged s k force o.late1 o.hookFails hwf' (Or.inl h1)
+      rw [hs] at a ⊢
+      rw [a]; exact fin _ _ _ a
+    · have hs := teardown_err_unchanged s k force o.late1 o.hookFails hwf' (Or.inr h1)
+      rw [hs] at a ⊢
+      rw [a]; exact fin _ _ _ a
+    · -- the environment is gone: the retry answers "not found"
+      have hnone := env?_none_of_unlisted _ k (teardown_done_unlisted s k force o.late1 o.hookFails (Or.inr h1))
+      have : (teardown (teardown s k force o.late1 o.hookFails).1 k true o.late2 o.hookFails).2.1 = .notfound :=
+        teardown_notfound _ _ _ _ _ hnone
+      rw [this] at a
+      exact absurd a (by simp)
+
+theorem env?_sameOwn {s s1 : State} (h : SameOwn s s1) (k : EnvId) (E : Env) (hE : s.env? k = some E) :
+    ∃ E1, s1.env? k = some E1 ∧ E1.id = E.id ∧ E1.tasks = E.tasks ∧ E1.hooks = E.hooks ∧ E1.tearing = E.tearing := by
+  obtain ⟨f, hf, he⟩ := h.envs
+  refine ⟨f E, ?_, (hf E).1, (hf E).2.1, (hf E).2.2.1, (hf E).2.2.2.1⟩
+  unfold State.env? at hE ⊢
+  rw [he, List.find?_map]
+  have : ((fun E => decide (E.id = k)) ∘ f) = (fun E : Env => decide (E.id = k)) := by
+    funext X; simp [(hf X).1]
+  rw [this, hE]
+  rfl
+
+/-- The same for every state that differs from `s` in task and environment states only. -/
+theorem tac_clean_same (s s1 : State) (hso : SameOwn s s1) (k : EnvId) (force keep : Bool) (o : DOracle) (E : Env)
+    (hE : s.env? k = some E) (hwf : envWf s k E.tasks = true) (hfaith : statusFaithful s E.tasks = true)
+    (hrel : hooksReleasable s E.hooks = true) (hhk : ∀ h ∈ E.hooks, h.task ∈ E.tasks)
+    (hok : (teardownAndCleanup s1 k E.tasks force keep o).2.1 = .ok) :
+    cleanAfter k keep (viewOf (teardownAndCleanup s1 k E.tasks force keep o).1) = true := by
+  obtain ⟨E1, hE1, _, ht, hh, _⟩ := env?_sameOwn hso k E hE
+  obtain ⟨t1, t2, t3⟩ := hyps_transfer hso k E.tasks E.hooks
+  rw [← ht] at hok ⊢
+  exact tac_clean s1 k force keep o E1 hE1 (by rw [ht, t1]; exact hwf) (by rw [ht, t2]; exact hfaith)
+    (by rw [hh, t3]; exact hrel) (by rw [hh, ht]; exact hhk) hok
+
+theorem destroyRest_clean (s s1 : State) (hso : SameOwn s s1) (st : EState) (stopOk : Bool) (k : EnvId) (keep : Bool)
+    (o : DOracle) (E : Env)
+    (hE : s.env? k = some E) (hwf : envWf s k E.tasks = true) (hfaith : statusFaithful s E.tasks = true)
+    (hrel : hooksReleasable s E.hooks = true) (hhk : ∀ h ∈ E.hooks, h.task ∈ E.tasks) :
+    (destroyRest s1 st stopOk k E keep o).2.1 = .ok →
+    cleanAfter k keep (viewOf (destroyRest s1 st stopOk k E keep o).1) = true ∨
+    cleanAfter k false (viewOf (destroyRest s1 st stopOk k E keep o).1) = true := by
+  unfold destroyRest
+  split
+  · intro h; right; exact tac_clean_same s s1 hso k true false o E hE hwf hfaith hrel hhk h
+  split
+  · intro h; right; exact tac_clean_same s s1 hso k true false o E hE hwf hfaith hrel hhk h
+  split
+  · split
+    · intro h; left
+      exact tac_clean_same s _ (hso.trans ((sameOwn_applyTrans _ _ _ _).trans (sameOwn_setEnv_state _ _ _))) k false keep o E hE hwf hfaith hrel hhk h
+    · intro h; right
+      exact tac_clean_same s _ (hso.trans (sameOwn_applyTrans _ _ _ _)) k true false o E hE hwf hfaith hrel hhk h
+  · intro h; left; exact tac_clean_same s s1 hso k false keep o E hE hwf hfaith hrel hhk h
+
+/-- cleanAfter with tasks killed implies cleanAfter with tasks kept. -/
+theorem cleanAfter_keep_of_kill (k : EnvId) (v : View) (h : cleanAfter k false v = true) : cleanAfter k true v = true := by
+  simp only [cleanAfter, Bool.and_eq_true, Bool.or_eq_true, Bool.false_eq_true, false_or, true_or, and_true] at h ⊢
+  exact ⟨⟨⟨h.1.1.1.1, h.1.1.1.2⟩, h.1.2⟩, h.2⟩
+
+theorem destroy_clean (s : State) (k : EnvId) (force allow keep : Bool) (o : DOracle) (E : Env)
+    (hE : s.env? k = some E) (hwf : envWf s k E.tasks = true) (hfaith : statusFaithful s E.tasks = true)
+    (hrel : hooksReleasable s E.hooks = true) (hhk : ∀ h ∈ E.hooks, h.task ∈ E.tasks)
+    (hok : (destroy s k force allow keep o).2.1 = .ok) :
+    cleanAfter k keep (viewOf (destroy s k force allow keep o).1) = true := by
+  revert hok
+  unfold destroy
+  split
+  · intro h; simp at h
+  rw [hE]
+  simp only []
+  split
+  · intro h; simp at h
+  split
+  · intro h; exact tac_clean s k true keep o E hE hwf hfaith hrel hhk h
+  · intro h
+    rcases destroyRest_clean s _ (sameOwn_destroyStop s k E allow o.stopFails) _ _ k keep o E hE hwf hfaith hrel hhk h with h1 | h1
+    · exact h1
+    · cases keep
+      · exact h1
+      · exact cleanAfter_keep_of_kill k _ h1
 
 end Own
